@@ -9,17 +9,34 @@ import (
 
 	"golang.org/x/tools/go/ssa"
 
+	"sbpfcheck/flow"
 	"sbpfcheck/origin"
 )
+
+// Sym is a leaf of a symbolic length: a slice value (in a calling context) whose length is not known statically.
+type Sym struct {
+	V  ssa.Value
+	Fr string
+}
 
 // LinForm is c + sum of lengths of slice values.
 type LinForm struct {
 	C    int64
-	Syms map[ssa.Value]int64
+	Syms map[Sym]int64
 	OK   bool
 }
 
-func newForm(c int64) LinForm { return LinForm{C: c, Syms: map[ssa.Value]int64{}, OK: true} }
+func newForm(c int64) LinForm { return LinForm{C: c, Syms: map[Sym]int64{}, OK: true} }
+
+func symForm(v ssa.Value, fr *frame) LinForm {
+	f := newForm(0)
+	id := ""
+	if fr != nil {
+		id = fr.id
+	}
+	f.Syms[Sym{v, id}] = 1
+	return f
+}
 
 func (a LinForm) add(b LinForm, sign int64) LinForm {
 	r := newForm(a.C + sign*b.C)
@@ -50,9 +67,12 @@ func (a LinForm) IsConst() (int64, bool) { return a.C, a.OK && len(a.Syms) == 0 
 func (a LinForm) String() string {
 	var parts []string
 	for k, v := range a.Syms {
-		n := k.Name()
-		if ph, ok := k.(*ssa.Phi); ok && ph.Comment != "" {
+		n := k.V.Name()
+		if ph, ok := k.V.(*ssa.Phi); ok && ph.Comment != "" {
 			n = ph.Comment
+		}
+		if al, ok := k.V.(*ssa.Alloc); ok && al.Comment != "" {
+			n = al.Comment
 		}
 		if v == 1 {
 			parts = append(parts, "|"+n+"|")
@@ -65,56 +85,81 @@ func (a LinForm) String() string {
 	return strings.Join(parts, " + ")
 }
 
-// PolicyEval evaluates the slice values of the policy-level assembler under one variant of its predicates.
+// Frame is a calling context of the policy-level evaluation.
+type Frame = frame
+
+// PolicyEval evaluates the slice value returned by the policy-level assembler under one variant of its predicates
+// ("x86_64": the policy's architecture is x86_64; "short": the architecture jump fits a conditional jump).  The
+// evaluation follows calls to functions of the module that return instruction slices (each under the same variant),
+// so it does not matter whether the pieces are built inline or by helper functions.
 type PolicyEval struct {
 	Fn       *ssa.Function
 	B        *Builder
 	Variant  map[string]bool // "x86_64", "short"
 	FragOf   func(call *ssa.Call) *Obj
-	ObjOf    func(al *ssa.Alloc) *Obj
+	ObjOf    func(al *ssa.Alloc, fr *Frame) *Obj
 	Problems []string
 	Items    []*Item
 	PosOf    map[*Item]LinForm // position of literal items in the returned program
 	Total    LinForm
-	JumpN    ssa.Value // the value compared with 255
-	ArchIf   *ssa.If
-	ShortIf  *ssa.If
-	res      *origin.Resolver
-	litVal   map[*Item]ssa.Value
+	Preds    map[string]int // recognised predicate branches by name
+	root     *frame
+	dry      bool
 }
 
 func (pe *PolicyEval) problem(format string, a ...interface{}) {
-	pe.Problems = append(pe.Problems, fmt.Sprintf(format, a...))
+	if pe.dry {
+		pe.Problems = append(pe.Problems, "dry")
+		return
+	}
+	msg := fmt.Sprintf(format, a...)
+	for _, p := range pe.Problems {
+		if p == msg {
+			return
+		}
+	}
+	pe.Problems = append(pe.Problems, msg)
 }
 
-// predOf classifies a branch condition of the policy-level assembler.
-func (pe *PolicyEval) predOf(cond ssa.Value) (string, bool) {
-	bo, ok := cond.(*ssa.BinOp)
+func (pe *PolicyEval) resolver(fr *frame) *origin.Resolver {
+	return pe.B.resolver(fr, env{phis: map[string]int{}})
+}
+
+// predOf classifies a branch condition of the policy-level assembler: the predicate's name and whether the
+// condition being true means the predicate holds.
+func (pe *PolicyEval) predOf(cond ssa.Value, fr *frame) (string, bool, bool) {
+	c := flow.Norm(flow.Cond{V: cond, Pol: true})
+	bo, ok := c.V.(*ssa.BinOp)
 	if !ok {
-		return "", false
+		return "", false, false
 	}
-	if bo.Op == token.EQL {
-		x := pe.res.Of(bo.X, nil, bo)
-		y := pe.res.Of(bo.Y, nil, bo)
+	if bo.Op == token.EQL || bo.Op == token.NEQ {
+		res := pe.resolver(fr)
+		x := res.Of(bo.X, fr.of, bo)
+		y := res.Of(bo.Y, fr.of, bo)
 		isID := func(o *origin.O) bool { return o.Kind == origin.KField && o.Field.Name() == "ID" }
 		isX8664 := func(o *origin.O) bool { return isID(o) && strings.Contains(o.Args[0].String(), "global:X86_64") }
 		isOwn := func(o *origin.O) bool { return isID(o) && strings.Contains(o.Args[0].String(), ".arch") }
 		if (isX8664(x) && isOwn(y)) || (isX8664(y) && isOwn(x)) {
-			return "x86_64", true
+			return "x86_64", (bo.Op == token.EQL) == c.Pol, true
 		}
 	}
-	if bo.Op == token.LEQ {
-		if k, ok := constInt(bo.Y); ok && k == 255 {
-			if f := pe.intForm(bo.X); f.OK && len(f.Syms) > 0 {
-				return "short", true
+	// the reach of a conditional jump: any spelling of `n <= 255`
+	if ip, ok := flow.AsIntPred(cond, true); ok {
+		if f := pe.intForm(ip.X, fr); f.OK && len(f.Syms) > 0 {
+			switch {
+			case ip.Holds(0) && ip.Holds(255) && !ip.Holds(256) && !ip.Holds(1<<20):
+				return "short", true, true
+			case !ip.Holds(0) && !ip.Holds(255) && ip.Holds(256) && ip.Holds(1<<20):
+				return "short", false, true
 			}
 		}
 	}
-	return "", false
+	return "", false, false
 }
 
 // feasible: is block b consistent with the variant (looking at the recognised predicates that dominate it)?
-func (pe *PolicyEval) feasible(b *ssa.BasicBlock) bool {
+func (pe *PolicyEval) feasible(b *ssa.BasicBlock, fr *frame) bool {
 	for d := b.Idom(); d != nil; d = d.Idom() {
 		if len(d.Instrs) == 0 {
 			continue
@@ -123,11 +168,11 @@ func (pe *PolicyEval) feasible(b *ssa.BasicBlock) bool {
 		if !ok {
 			continue
 		}
-		name, ok := pe.predOf(ifi.Cond)
+		name, sense, ok := pe.predOf(ifi.Cond, fr)
 		if !ok {
 			continue
 		}
-		want := pe.Variant[name]
+		want := pe.Variant[name] == sense // the condition's value under the variant
 		onTrue := d.Succs[0] == b || d.Succs[0].Dominates(b)
 		onFalse := d.Succs[1] == b || d.Succs[1].Dominates(b)
 		// a block dominated by exactly one arm
@@ -151,18 +196,18 @@ func isInstrSliceT(t types.Type) bool {
 }
 
 // phiEdge resolves a phi under the variant: the single feasible incoming edge, or -1.
-func (pe *PolicyEval) phiEdge(ph *ssa.Phi) int {
+func (pe *PolicyEval) phiEdge(ph *ssa.Phi, fr *frame) int {
 	idx := -1
 	n := 0
 	for i, p := range ph.Block().Preds {
 		// the edge p -> block is feasible if p is feasible and, when p ends in a recognised predicate, the arm matches
-		if !pe.feasible(p) {
+		if !pe.feasible(p, fr) {
 			continue
 		}
 		if len(p.Instrs) > 0 {
 			if ifi, ok := p.Instrs[len(p.Instrs)-1].(*ssa.If); ok {
-				if name, ok := pe.predOf(ifi.Cond); ok {
-					want := pe.Variant[name]
+				if name, sense, ok := pe.predOf(ifi.Cond, fr); ok {
+					want := pe.Variant[name] == sense
 					if (p.Succs[0] == ph.Block()) != want && p.Succs[0] != p.Succs[1] {
 						continue
 					}
@@ -178,37 +223,6 @@ func (pe *PolicyEval) phiEdge(ph *ssa.Phi) int {
 	return -1
 }
 
-// lenForm: symbolic length of a slice value.
-func (pe *PolicyEval) lenForm(v ssa.Value) LinForm {
-	switch x := v.(type) {
-	case *ssa.Const:
-		return newForm(0)
-	case *ssa.MakeSlice:
-		if k, ok := constInt(x.Len); ok {
-			return newForm(k)
-		}
-	case *ssa.Slice:
-		if vals, ok := elementsOf(x); ok {
-			return newForm(int64(len(vals)))
-		}
-	case *ssa.Call:
-		if isBuiltin(x, "append") && len(x.Call.Args) == 2 {
-			a := pe.lenForm(x.Call.Args[0])
-			if vals, ok := elementsOf(x.Call.Args[1]); ok {
-				return a.add(newForm(int64(len(vals))), 1)
-			}
-			return a.add(pe.lenForm(x.Call.Args[1]), 1)
-		}
-	case *ssa.Phi:
-		if e := pe.phiEdge(x); e >= 0 && !isLoopPhi(x) {
-			return pe.lenForm(x.Edges[e])
-		}
-	}
-	f := newForm(0)
-	f.Syms[v] = 1
-	return f
-}
-
 func isLoopPhi(ph *ssa.Phi) bool {
 	for _, p := range ph.Block().Preds {
 		if ph.Block().Dominates(p) {
@@ -218,25 +232,42 @@ func isLoopPhi(ph *ssa.Phi) bool {
 	return false
 }
 
+// argOf maps a parameter of the frame's function to the caller's argument.
+func argOf(p *ssa.Parameter, fr *frame) (ssa.Value, bool) {
+	if fr == nil || fr.call == nil {
+		return nil, false
+	}
+	for i, q := range fr.fn.Params {
+		if q == p && i < len(fr.call.Call.Args) {
+			return fr.call.Call.Args[i], true
+		}
+	}
+	return nil, false
+}
+
 // intForm: symbolic value of an int expression over len().
-func (pe *PolicyEval) intForm(v ssa.Value) LinForm {
+func (pe *PolicyEval) intForm(v ssa.Value, fr *frame) LinForm {
 	switch x := v.(type) {
 	case *ssa.Const:
 		if k, ok := constInt(x); ok {
 			return newForm(k)
 		}
 	case *ssa.Convert:
-		return pe.intForm(x.X)
+		return pe.intForm(x.X, fr)
 	case *ssa.BinOp:
 		switch x.Op {
 		case token.ADD:
-			return pe.intForm(x.X).add(pe.intForm(x.Y), 1)
+			return pe.intForm(x.X, fr).add(pe.intForm(x.Y, fr), 1)
 		case token.SUB:
-			return pe.intForm(x.X).add(pe.intForm(x.Y), -1)
+			return pe.intForm(x.X, fr).add(pe.intForm(x.Y, fr), -1)
+		}
+	case *ssa.Parameter:
+		if a, ok := argOf(x, fr); ok {
+			return pe.intForm(a, fr.parent)
 		}
 	case *ssa.Call:
 		if isBuiltin(x, "len") {
-			return pe.lenSym(x.Call.Args[0])
+			return pe.lenOf(x.Call.Args[0], fr)
 		}
 	}
 	f := newForm(0)
@@ -244,22 +275,35 @@ func (pe *PolicyEval) intForm(v ssa.Value) LinForm {
 	return f
 }
 
-// IntForm is the exported form evaluation.
-func (pe *PolicyEval) IntForm(v ssa.Value) LinForm { return pe.intForm(v) }
+// IntForm evaluates the integer expression behind a literal's field.
+func (pe *PolicyEval) IntForm(v ssa.Value, it *Item) LinForm {
+	fr := pe.root
+	if it != nil && it.fr != nil {
+		fr = it.fr
+	}
+	return pe.intForm(v, fr)
+}
 
-// lenSym keeps named slice variables (phis, appends that end a variable's life) as symbols, so that the form of the
-// skip and the form of the layout are expressed over the same symbols.
-func (pe *PolicyEval) lenSym(v ssa.Value) LinForm {
-	f := newForm(0)
-	f.Syms[v] = 1
-	return f
+// lenOf: the symbolic length of a slice value, by the same expansion that lays the program out (so that the form of a
+// jump distance and the form of the layout are expressed over the same leaves).
+func (pe *PolicyEval) lenOf(v ssa.Value, fr *frame) LinForm {
+	tmp := &PolicyEval{Fn: pe.Fn, B: pe.B, Variant: pe.Variant, FragOf: pe.FragOf, ObjOf: pe.ObjOf, PosOf: map[*Item]LinForm{}, root: pe.root, dry: true, Preds: map[string]int{}}
+	pos := newForm(0)
+	tmp.seq(v, fr, &pos, nil, 0)
+	if len(tmp.Problems) > 0 {
+		pos.OK = false
+	}
+	return pos
 }
 
 // Eval computes the item sequence of the returned program.
 func (pe *PolicyEval) Eval() {
-	pe.res = origin.NewResolver()
 	pe.PosOf = map[*Item]LinForm{}
-	pe.litVal = map[*Item]ssa.Value{}
+	pe.Preds = map[string]int{}
+	if pe.B.frames == nil {
+		pe.B.frames = map[string]*frame{}
+	}
+	pe.root = &frame{fn: pe.Fn, of: nil, id: "policy"}
 	// the success return: the one whose error is the nil constant
 	var ret *ssa.Return
 	for _, b := range pe.Fn.Blocks {
@@ -282,37 +326,23 @@ func (pe *PolicyEval) Eval() {
 		pe.problem("no success return found")
 		return
 	}
-	for _, b := range pe.Fn.Blocks {
-		if len(b.Instrs) == 0 {
-			continue
-		}
-		if ifi, ok := b.Instrs[len(b.Instrs)-1].(*ssa.If); ok {
-			if name, ok := pe.predOf(ifi.Cond); ok {
-				switch name {
-				case "x86_64":
-					pe.ArchIf = ifi
-				case "short":
-					pe.ShortIf = ifi
-					pe.JumpN = ifi.Cond.(*ssa.BinOp).X
-				}
-			}
-		}
-	}
 	pos := newForm(0)
-	pe.Items = pe.seq(ret.Results[0], &pos, nil, 0)
+	pe.Items = pe.seq(ret.Results[0], pe.root, &pos, nil, 0)
 	pe.Total = pos
 }
 
-// seq expands a slice value into items. pos is advanced by the symbolic length; syms is the stack of slice
-// variables being expanded (their lengths are symbols of the forms).
-func (pe *PolicyEval) seq(v ssa.Value, pos *LinForm, syms []string, depth int) []*Item {
-	if depth > 40 {
+// seq expands a slice value into items. pos is advanced by the (symbolic) length; syms is the stack of slice
+// variables being expanded.
+func (pe *PolicyEval) seq(v ssa.Value, fr *frame, pos *LinForm, syms []string, depth int) []*Item {
+	if depth > 60 {
 		pe.problem("sequence expression too deep")
 		return nil
 	}
 	switch x := v.(type) {
 	case *ssa.Const:
 		return nil
+	case *ssa.ChangeType:
+		return pe.seq(x.X, fr, pos, syms, depth+1)
 	case *ssa.MakeSlice:
 		if k, ok := constInt(x.Len); ok && k == 0 {
 			return nil
@@ -325,50 +355,72 @@ func (pe *PolicyEval) seq(v ssa.Value, pos *LinForm, syms []string, depth int) [
 			pe.problem("slice expression in the program sequence that is not a literal")
 			return nil
 		}
-		return pe.lits(vals, pos, syms)
+		return pe.lits(vals, fr, pos, syms)
+	case *ssa.Parameter:
+		if a, ok := argOf(x, fr); ok {
+			return pe.seq(a, fr.parent, pos, syms, depth+1)
+		}
 	case *ssa.Call:
 		if isBuiltin(x, "append") && len(x.Call.Args) == 2 {
-			out := pe.seq(x.Call.Args[0], pos, syms, depth+1)
+			out := pe.seq(x.Call.Args[0], fr, pos, syms, depth+1)
 			if vals, ok := elementsOf(x.Call.Args[1]); ok {
-				return append(out, pe.lits(vals, pos, syms)...)
+				return append(out, pe.lits(vals, fr, pos, syms)...)
 			}
-			// append(x, y...): y is a slice variable; its length is a symbol
+			// append(x, y...): y is a slice variable
 			y := x.Call.Args[1]
-			name := symName(y)
-			sub := newForm(0)
-			items := pe.seq(y, &sub, append(append([]string{}, syms...), name), depth+1)
-			f := newForm(0)
-			f.Syms[y] = 1
-			*pos = pos.add(f, 1)
+			items := pe.seq(y, fr, pos, append(append([]string{}, syms...), symName(y)), depth+1)
 			return append(out, items...)
+		}
+		if cal := x.Call.StaticCallee(); cal != nil && cal.Pkg == pe.B.Pkg && len(cal.Blocks) > 0 && cal.Signature.Results().Len() == 1 && isInstrSliceT(cal.Signature.Results().At(0).Type()) {
+			if depthOf(fr) > 8 {
+				pe.problem("call depth exceeds 8 in the program sequence (recursion?) at %s", cal.Name())
+				return nil
+			}
+			nf := pe.B.frameFor(fr, x, cal, env{phis: map[string]int{}})
+			var rets []*ssa.Return
+			for _, b := range cal.Blocks {
+				if len(b.Instrs) == 0 {
+					continue
+				}
+				if r, ok := b.Instrs[len(b.Instrs)-1].(*ssa.Return); ok && pe.feasible(b, nf) {
+					rets = append(rets, r)
+				}
+			}
+			if len(rets) != 1 || len(rets[0].Results) != 1 {
+				pe.problem("%s has %d return statements that are possible under the variant (a program piece chosen by a condition the analysis does not track)", cal.Name(), len(rets))
+				return nil
+			}
+			return pe.seq(rets[0].Results[0], nf, pos, syms, depth+1)
 		}
 	case *ssa.Phi:
 		if isLoopPhi(x) {
-			return pe.loop(x, pos, syms, depth)
+			return pe.loop(x, fr, pos, syms, depth)
 		}
-		if e := pe.phiEdge(x); e >= 0 {
-			return pe.seq(x.Edges[e], pos, syms, depth+1)
+		if e := pe.phiEdge(x, fr); e >= 0 {
+			return pe.seq(x.Edges[e], fr, pos, syms, depth+1)
 		}
 		pe.problem("a program slice joins values under a condition the analysis does not track (%s)", x.Comment)
 		return nil
 	case *ssa.Extract:
 		if c, ok := x.Tuple.(*ssa.Call); ok && x.Index == 0 && pe.FragOf != nil {
 			if o := pe.FragOf(c); o != nil {
-				return []*Item{{Kind: "obj", Obj: o, Syms: syms}}
+				*pos = pos.add(symForm(c, fr), 1)
+				return []*Item{{Kind: "obj", Obj: o, Syms: syms, fr: fr}}
 			}
 		}
 	case *ssa.UnOp:
 		if x.Op == token.MUL {
 			if fa, ok := x.X.(*ssa.FieldAddr); ok {
 				if al, ok := fa.X.(*ssa.Alloc); ok && pe.ObjOf != nil {
-					if o := pe.ObjOf(al); o != nil {
-						return []*Item{{Kind: "obj", Obj: o, Syms: syms}}
+					if o := pe.ObjOf(al, fr); o != nil {
+						*pos = pos.add(symForm(al, fr), 1)
+						return []*Item{{Kind: "obj", Obj: o, Syms: syms, fr: fr}}
 					}
 				}
 			}
 		}
 	}
-	pe.problem("unrecognised program slice expression %T", v)
+	pe.problem("unrecognised program slice expression %T (%s)", v, v.String())
 	return nil
 }
 
@@ -379,13 +431,14 @@ func symName(v ssa.Value) string {
 	return v.Name()
 }
 
-func (pe *PolicyEval) lits(vals []ssa.Value, pos *LinForm, syms []string) []*Item {
+func (pe *PolicyEval) lits(vals []ssa.Value, fr *frame, pos *LinForm, syms []string) []*Item {
 	var out []*Item
 	for _, v := range vals {
-		lit := pe.B.literalOf(v, state{fr: &frame{fn: pe.Fn, of: nil, id: "policy"}, env: env{phis: map[string]int{}}})
-		it := &Item{Kind: "lit", Lit: lit, Syms: syms}
-		pe.PosOf[it] = pos.add(newForm(0), 1)
-		pe.litVal[it] = v
+		it := &Item{Kind: "lit", Syms: syms, fr: fr}
+		if !pe.dry {
+			it.Lit = pe.B.literalOf(v, state{fr: fr, env: env{phis: map[string]int{}}})
+			pe.PosOf[it] = pos.add(newForm(0), 1)
+		}
 		*pos = pos.add(newForm(1), 1)
 		out = append(out, it)
 	}
@@ -393,13 +446,13 @@ func (pe *PolicyEval) lits(vals []ssa.Value, pos *LinForm, syms []string) []*Ite
 }
 
 // loop: phi [pre: X, latch: append(phi, t...)] => X then (t)*
-func (pe *PolicyEval) loop(ph *ssa.Phi, pos *LinForm, syms []string, depth int) []*Item {
+func (pe *PolicyEval) loop(ph *ssa.Phi, fr *frame, pos *LinForm, syms []string, depth int) []*Item {
 	var out []*Item
 	H := ph.Block()
 	for i, ed := range ph.Edges {
 		pred := H.Preds[i]
 		if !H.Dominates(pred) {
-			out = append(out, pe.seq(ed, pos, syms, depth+1)...)
+			out = append(out, pe.seq(ed, fr, pos, syms, depth+1)...)
 		}
 	}
 	for i, ed := range ph.Edges {
@@ -413,13 +466,22 @@ func (pe *PolicyEval) loop(ph *ssa.Phi, pos *LinForm, syms []string, depth int) 
 			continue
 		}
 		sub := newForm(0)
-		body := pe.seq(app.Call.Args[1], &sub, syms, depth+1)
+		body := pe.seq(app.Call.Args[1], fr, &sub, syms, depth+1)
 		if len(body) != 1 || body[0].Kind != "obj" {
 			pe.problem("the per-group contribution is not a single fragment")
 			continue
 		}
 		body[0].Kind = "star"
+		*pos = pos.add(symForm(ph, fr), 1)
 		out = append(out, body[0])
 	}
 	return out
+}
+
+// FrameID names a calling context.
+func FrameID(fr *Frame) string {
+	if fr == nil {
+		return ""
+	}
+	return fr.id
 }
